@@ -580,6 +580,7 @@ pub fn enc_lines(ctx: &Ctx, scn: &Value, out: &EncOut) -> Vec<Value> {
         "sinklen":out.accepted,"twin":twin,"faults":fault_kinds(scn),
         "nonconf": ju64_or(scn,"extra_after_eof",0) > 0,
         "heapk": heap_bound(cs, api),
+        "heap_ref": heap_reference_enc(ctx, scn).map(|x| x as i64).unwrap_or(-1),
     }));
     let covs = out.covs.clone();
     emit_events(&mut lines, &out.events, |i, _e, j| {
@@ -588,6 +589,24 @@ pub fn enc_lines(ctx: &Ctx, scn: &Value, out: &EncOut) -> Vec<Value> {
     lines.push(json!({"ev":"end","res":if out.overflow {"hang"} else {out.res},"cons":out.consumed,"acc":out.accepted,
                       "eofs":out.eof_reads,"late":out.late}));
     lines
+}
+
+/// Peak heap over all events of a run.
+fn peak_of(events: &[Ev]) -> u64 {
+    events.iter().map(|e| e.heap).max().unwrap_or(0)
+}
+
+/// C11, sharper than the constant bound: the peak heap of the same operation on a short input
+/// (three chunks) with the same schedule; the run's peak must not exceed it by more than a slack.
+fn heap_reference_enc(ctx: &Ctx, scn: &Value) -> Option<u64> {
+    if !scn.get("heapref").and_then(|x| x.as_bool()).unwrap_or(false) {
+        return None;
+    }
+    let cs = ju64_or(scn, "cs", 65536);
+    let mut s = scn.clone();
+    s["plen"] = json!(std::cmp::min(ju64(scn, "plen"), 3 * cs + 1));
+    s["store"] = json!(false);
+    Some(peak_of(&enc_once(ctx, &s).events))
 }
 
 /// Generous constant heap bound (DESIGN.md 5, rule 3): only a length-dependent
@@ -967,12 +986,23 @@ pub fn run_bigdec(ctx: &Ctx, scn: &Value) -> Vec<Value> {
     };
     let mut d = scn.clone();
     d["store"] = json!(false);
+    // reference peak: the same operation on three chunks
+    let heap_ref: i64 = if scn.get("heapref").and_then(|x| x.as_bool()).unwrap_or(false) && plen > 3 * chunk + 1 {
+        let mut small = scn.clone();
+        small["plen"] = json!(3 * chunk + 1);
+        small["heapref"] = json!(false);
+        let lines = run_bigdec(ctx, &small);
+        lines.iter().filter_map(|l| l.get("heap").and_then(|x| x.as_i64())).max().unwrap_or(0)
+    } else {
+        -1
+    };
     let o = dec_once(ctx, &d, Source::Lazy { len: flen, fill: Box::new(fill) }, Expect::Gen { seed: pseed, len: plen }, kseed, false);
     let mut lines = Vec::new();
     lines.push(json!({
         "ev":"begin","op":"dec","api":api,"id":scn.get("id").cloned().unwrap_or(json!("")),
         "cs":cs,"H":h,"flen":flen,"plen":plen,"class":"must_accept",
         "twin":{"used":false,"prefix_ok":true,"res":"n/a"},"faults":fault_kinds(scn),"heapk":heap_bound(cs, api),
+        "heap_ref": heap_ref,
     }));
     let lag = 2 * (cs + 32);
     emit_events(&mut lines, &o.events, |_i, e, j| {
